@@ -18,7 +18,7 @@ import subprocess
 import sys
 import time
 
-WT = "/tmp/wt_mut"
+WT = os.environ.get("SEED_WT", "/tmp/wt_mut")
 PY = "/venv/bin/python"
 ROOT = os.path.dirname(os.path.dirname(os.path.abspath(__file__)))
 
